@@ -57,6 +57,11 @@ impl Otaa {
             &DefaultCrypto::new(self.network_credentials.appkey.inner()),
         ) {
             region.process_join_accept(decrypt.c_f_list().as_ref());
+            // The data rate carried over from before the join may have no channel in the mask
+            // the accept installed (eg: a 500 kHz rate with only 125 kHz channels enabled).
+            if !region.channel_mask_validate(&region.channel_mask_get(), Some(configuration.data_rate)) {
+                configuration.data_rate = region.get_default_datarate();
+            }
             configuration.rx1_delay = del_to_delay_ms(decrypt.rx_delay());
             let dl_settings = decrypt.dl_settings();
             if let Some(rx1_dr_offset) = region.rx1_dr_offset_validate(dl_settings.rx1_dr_offset())
